@@ -485,14 +485,14 @@ func run(cfg *lib.Config, res *lib.Result) {
 			case asg && !ins:
 				res.Violate(lib.Violation{Clause: "detailed_sound",
 					What:  fmt.Sprintf("%s accepts %s, the detailed type of %s, but the value is not an instance of it", te.text, tyText(obs[i].dt), lat.ValText(x.v)),
-					Input: in, Tags: []string{"sound:" + te.dec.K + "<-" + obs[i].ddec.K}})
+					Input: in, Tags: soundTags(te.dec, obs[i].ddec)})
 			case ins && !asg:
 				if undefEntry {
 					res.Count("detailed.complete.excluded-undef-entry")
 				} else {
 					res.Violate(lib.Violation{Clause: "detailed_complete",
 						What:  fmt.Sprintf("%s is an instance of %s, which does not accept its detailed type %s", lat.ValText(x.v), te.text, tyText(obs[i].dt)),
-						Input: in, Tags: []string{"complete:" + te.dec.K + "<-" + obs[i].ddec.K}})
+						Input: in, Tags: completeTags(te.dec, obs[i].ddec, x.dec)})
 				}
 			}
 		}
@@ -522,7 +522,7 @@ func run(cfg *lib.Config, res *lib.Result) {
 		ok, crash := gBool(func() bool { return px.IsAssignable(g, te.t) })
 		if crash != "" || !ok {
 			res.Violate(lib.Violation{Clause: "generalize", What: fmt.Sprintf("Generalize(%s) = %s does not accept it %s", te.text, tyText(g), crash),
-				Input: in, Tags: []string{"generalize:" + te.dec.K}})
+				Input: in, Tags: generalizeTags(te.dec)})
 		} else {
 			res.Count("generalize.ok")
 		}
@@ -551,7 +551,7 @@ func run(cfg *lib.Config, res *lib.Result) {
 				which = "the second"
 			}
 			res.Violate(lib.Violation{Clause: "common", What: fmt.Sprintf("CommonType(%s, %s) = %s does not accept %s operand %s%s", ea.text, eb.text, tyText(c), which, c1, c2),
-				Input: in, Tags: []string{"common:" + ea.dec.K + "+" + eb.dec.K}})
+				Input: in, Tags: commonTags(ea.dec, eb.dec)})
 		}
 		cd := types.VerifDecodeType(c)
 		if cd.K != ea.dec.K && cd.K != eb.dec.K || (c != ta && c != tb) {
@@ -709,13 +709,140 @@ func run(cfg *lib.Config, res *lib.Result) {
 	}
 }
 
+
+// ---------------------------------------------------------------------------------------------
+// input classes of the open findings (known_findings/C04.json); each tag names exactly one class
+
+const maxFloatKey = 0x7FEFFFFFFFFFFFFF // order key of math.MaxFloat64
+
+// nonFinite: the type has a Float bound that is NaN or infinite
+func nonFinite(t *types.VerifTy) bool {
+	if t.K == "Float" && (t.NaN || t.Lo < -maxFloatKey || t.Hi > maxFloatKey) {
+		return true
+	}
+	for _, e := range t.Ts {
+		if nonFinite(e) {
+			return true
+		}
+	}
+	for _, e := range t.Keys {
+		if nonFinite(e) {
+			return true
+		}
+	}
+	return false
+}
+
+func valNonFinite(v *types.VerifVal) bool {
+	if v.K == "Float" && (v.NaN || v.I < -maxFloatKey || v.I > maxFloatKey) {
+		return true
+	}
+	if v.K == "Type" && nonFinite(v.T) {
+		return true
+	}
+	for _, e := range v.Vs {
+		if valNonFinite(e) {
+			return true
+		}
+	}
+	return false
+}
+
+// looseTuple: the type contains a Tuple with more element types than its minimum size (instances shorter
+// than the list of element types exist)
+func looseTuple(t *types.VerifTy) bool {
+	if t.K == "Tuple" && int64(len(t.Ts)) > t.Lo {
+		return true
+	}
+	for _, e := range t.Ts {
+		if looseTuple(e) {
+			return true
+		}
+	}
+	for _, e := range t.Keys {
+		if looseTuple(e) {
+			return true
+		}
+	}
+	return false
+}
+
+func soundTags(T, D *types.VerifTy) []string {
+	switch {
+	case lat.Contains(T, "Iterable"):
+		return []string{"iterable"}
+	case lat.Contains(T, "Struct") && lat.Contains(D, "Hash"):
+		return []string{"byspec-struct-accepts-hash"}
+	}
+	return []string{"sound:" + T.K + "<-" + D.K}
+}
+
+func completeTags(T, D *types.VerifTy, v *types.VerifVal) []string {
+	switch {
+	case valNonFinite(v):
+		return []string{"nonfinite-float"}
+	case lat.Contains(T, "Iterable"):
+		return []string{"iterable"}
+	case looseTuple(T):
+		return []string{"tuple-slots-beyond-size"}
+	}
+	return []string{"complete:" + T.K + "<-" + D.K}
+}
+
+// strayUnit: Unit occurs somewhere else than as the element type of a collection type that admits only the
+// empty collection (Array[Unit,0,0], Hash[Unit,Unit,0,0] — the inferred types of [] and {}), e.g. in
+// Generalize(Array[Unit,0,0]) = Array[Unit]
+func strayUnit(t *types.VerifTy) bool {
+	if t.K == "Unit" {
+		return true
+	}
+	if (t.K == "Array" || t.K == "Hash") && t.Hi == 0 {
+		for _, e := range t.Ts {
+			if e.K != "Unit" && strayUnit(e) {
+				return true
+			}
+		}
+		return false
+	}
+	for _, e := range t.Ts {
+		if strayUnit(e) {
+			return true
+		}
+	}
+	for _, e := range t.Keys {
+		if strayUnit(e) {
+			return true
+		}
+	}
+	return false
+}
+
+func commonTags(a, b *types.VerifTy) []string {
+	if (lat.Contains(a, "Struct") || lat.Contains(b, "Struct")) && (lat.Contains(a, "Hash") || lat.Contains(b, "Hash")) {
+		return []string{"byspec-struct-accepts-hash"}
+	}
+	if nonFinite(a) || nonFinite(b) {
+		return []string{"nonfinite-float"}
+	}
+	if strayUnit(a) || strayUnit(b) {
+		return []string{"unit-outside-empty-collection"}
+	}
+	return []string{"common:" + a.K + "+" + b.K}
+}
+
+func generalizeTags(t *types.VerifTy) []string {
+	if nonFinite(t) {
+		return []string{"nonfinite-float"}
+	}
+	return []string{"generalize:" + t.K}
+}
+
 // valueTags: narrow tags for known-finding matchers
 func valueTags(v *types.VerifVal, clause string) []string {
-	tags := []string{clause + ":" + v.K}
 	if containsNaN(v) {
-		tags = append(tags, clause+":nan")
+		return []string{"nonfinite-float"}
 	}
-	return tags
+	return []string{clause + ":" + v.K}
 }
 
 func containsNaN(v *types.VerifVal) bool {
